@@ -2,6 +2,7 @@
 //! See /verif/DESIGN.md §2.
 
 mod batch;
+mod bytes;
 mod gen;
 mod medium;
 mod node;
